@@ -10,6 +10,7 @@ import PasfmtModel.Model.Consolidators
 import PasfmtModel.Model.ParserFull
 import PasfmtModel.Model.WrapStage
 import PasfmtModel.Model.WrapStageFull
+import PasfmtModel.Model.PipelineFull
 
 namespace Pasfmt
 
@@ -246,6 +247,15 @@ def handleWsearch (cfgS inpS kindsS linesS alnumS : String) : String :=
         s!"ws={ws}\twp={showList (m.map fun t => showFmt t.fmt)}\twcn={showChanged (ft1.map (·.tok.content)) (m.map (·.tok.content))}"
   | _, _, _, _, _ => "bad-record"
 
+/-- the `full` stream: the whole formatter as one closed model function (no recorded stage) -/
+def handleFull (cfgS inpS alnumS : String) : String :=
+  match parseCfg cfgS, ofHex inpS, (parseList alnumS).mapM ofHex with
+  | some cfg, some inp, some alnum =>
+    match formatFull cfg (fun b => alnum.contains b) inp with
+    | none => "model-none"
+    | some out => s!"out={toHex out}"
+  | _, _, _ => "bad-record"
+
 def parseParent (s : String) : Option (Option LineParent) :=
   if s == "-" then some none else
   match s.splitOn "." with
@@ -410,6 +420,7 @@ def handleLine (line : String) : String :=
   | ["parse", kinds, passesOps] => handleParse kinds passesOps
   | ["pfull", kinds, nl] => handlePfull kinds nl
   | ["wsearch", cfg, inp, kinds, lines, alnum] => handleWsearch cfg inp kinds lines alnum
+  | ["full", cfg, inp, alnum] => handleFull cfg inp alnum
   | ["io", mode, enc, content, header, fmtT, decT, encT] => handleIo mode enc content header fmtT decT encT
   | ["sched", workers] => handleSched workers
   | ["cfg", dirs, file, ov, known, valid, defaults] => handleCfg dirs file ov known valid defaults
